@@ -92,6 +92,9 @@ def _configs(tier, salts):
         # the model-increase geometries under soft and hard restarts (the abandoned trial point must survive the restart)
         if salt == 0 or (tier == "thorough" and salt == 1):
             out += cfgs.tr_increase_cfgs(salt, restarts=("soft", "hard_new"), letters=("best", "x0.3", "x0"))
+        # declared linear-algebra faults: a point evaluated just before a linear-algebra exit or error-recovery restart
+        if salt == 0 or (tier == "thorough" and salt == 1):
+            out += [(c, p) for c, p in cfgs.linalg_fault_cfgs(salt, tier) if "noisy" not in c["broad_flags"]]
         # the broad option bank, deterministic modes only
         if salt == 0 or (tier == "thorough" and salt == 1):
             for name, cfg in cfgs.broad_cfgs(salt=salt, exclude=("noisy",), budgets=(7, 25, 60)):
